@@ -3,5 +3,6 @@ NEXT Next
 CONSTANTS MaxWide = 2
           MaxNarrow = 3
           Lanes = 16
+          Full = TRUE
 INVARIANT SpecSane
 CHECK_DEADLOCK FALSE
